@@ -103,6 +103,10 @@ class PDLMatcher:
         if original_op.type_values and len(original_op.type_values) <= index:
             return False
 
+        # The operand has to be the result with this index, not any result of the op
+        if len(xdsl_op.results) <= index or xdsl_op.results[index] != xdsl_operand:
+            return False
+
         self.matching_context[ssa_val] = xdsl_op.results[index]
 
         return True
